@@ -1,4 +1,5 @@
 \* Sierra classes across the 0.14.1 switch: declare V1/V2, migrate, deploy/replace; <= 3 blocks, diffs of <= 2 entries
+\* measured: 7 919 distinct states, ~6 s on 4 workers
 CONSTANTS
   Users = {"c1"}
   Sys = {}
